@@ -1,6 +1,7 @@
 package activitypub
 
 import (
+	"errors"
 	"fmt"
 	"reflect"
 	"strings"
@@ -61,45 +62,47 @@ func ItemsEqual(it, with Item) bool {
 			return nil
 		})
 	} else if IsObject(it) {
-		_ = OnObject(it, func(i *Object) error {
-			result = i.Equals(with)
-			return nil
-		})
-		if ActivityTypes.Contains(with.GetType()) {
-			_ = OnActivity(it, func(i *Activity) error {
+		// NOTE(marius): the Equals methods of the specific types compare the Object properties themselves,
+		// comparing those first would compare every nested item twice at each level
+		err := errors.New("compare as plain objects")
+		switch {
+		case ActivityTypes.Contains(with.GetType()):
+			err = OnActivity(it, func(i *Activity) error {
 				result = i.Equals(with)
 				return nil
 			})
-		} else if ActorTypes.Contains(with.GetType()) {
-			_ = OnActor(it, func(i *Actor) error {
+		case ActorTypes.Contains(with.GetType()):
+			err = OnActor(it, func(i *Actor) error {
 				result = i.Equals(with)
 				return nil
 			})
-		} else if it.IsCollection() {
-			if it.GetType() == CollectionType {
-				_ = OnCollection(it, func(c *Collection) error {
-					result = c.Equals(with)
-					return nil
-				})
-			}
-			if it.GetType() == OrderedCollectionType {
-				_ = OnOrderedCollection(it, func(c *OrderedCollection) error {
-					result = c.Equals(with)
-					return nil
-				})
-			}
-			if it.GetType() == CollectionPageType {
-				_ = OnCollectionPage(it, func(c *CollectionPage) error {
-					result = c.Equals(with)
-					return nil
-				})
-			}
-			if it.GetType() == OrderedCollectionPageType {
-				_ = OnOrderedCollectionPage(it, func(c *OrderedCollectionPage) error {
-					result = c.Equals(with)
-					return nil
-				})
-			}
+		case it.IsCollection() && it.GetType() == CollectionType:
+			err = OnCollection(it, func(c *Collection) error {
+				result = c.Equals(with)
+				return nil
+			})
+		case it.IsCollection() && it.GetType() == OrderedCollectionType:
+			err = OnOrderedCollection(it, func(c *OrderedCollection) error {
+				result = c.Equals(with)
+				return nil
+			})
+		case it.IsCollection() && it.GetType() == CollectionPageType:
+			err = OnCollectionPage(it, func(c *CollectionPage) error {
+				result = c.Equals(with)
+				return nil
+			})
+		case it.IsCollection() && it.GetType() == OrderedCollectionPageType:
+			err = OnOrderedCollectionPage(it, func(c *OrderedCollectionPage) error {
+				result = c.Equals(with)
+				return nil
+			})
+		}
+		if err != nil {
+			// NOTE(marius): it can't be viewed as the more specific type, only the Object properties can be compared
+			_ = OnObject(it, func(i *Object) error {
+				result = i.Equals(with)
+				return nil
+			})
 		}
 	}
 	return result
